@@ -12,7 +12,7 @@ use std::{
 use actix_server::verif::{self, AcceptView, Point, WorkerView};
 use mcutil::{json, Value};
 
-use crate::sys::{Config, ErrKind, Ev, LKind, Mode, Rec, Sys};
+use crate::sys::{Config, ErrKind, Ev, LKind, Mode, Pt, Rec, Sys};
 
 pub type Step = (Ev, Option<(usize, Vec<Ev>)>);
 
@@ -96,7 +96,7 @@ pub struct Snap {
     pub key_text: String,
     pub enabled: Vec<Ev>,
     pub quiescent: bool,
-    pub points: Vec<Point>,
+    pub points: Vec<Pt>,
     pub log: Vec<(usize, bool, Rec)>,
     pub log_ms: Vec<u64>,
     pub accept: Option<AcceptView>,
@@ -411,7 +411,14 @@ pub fn run(cfg: &Config, b: &Bounds, history: &[Step]) -> Snap {
 /// Event sequences of *other* actors that may run at `point`, from the state before the
 /// top-level event (`before`) and the event itself. Invalid ones (not enabled at that moment)
 /// are discarded at run time.
-pub fn nested_candidates(point: Point, top: Ev, before: &Snap, max_len: usize) -> Vec<Vec<Ev>> {
+pub fn nested_candidates(point: Pt, top: Ev, before: &Snap, max_len: usize) -> Vec<Vec<Ev>> {
+    let point = match point {
+        Pt::Hook(p) => p,
+        Pt::ServiceDrop(_) => {
+            // the accept loop dispatches while the dead worker is being taken apart
+            return vec![vec![Ev::AcceptTurn]];
+        }
+    };
     let mut out: Vec<Vec<Ev>> = vec![];
     let slot_of = |idx: usize| before.workers.iter().rev().find(|w| w.idx == idx).map(|w| w.slot);
     let inflight: Vec<usize> = before.conns.iter().enumerate().filter(|(_, c)| matches!(c.phase, Phase::Serving(_))).map(|(i, _)| i).collect();
